@@ -45,6 +45,10 @@ class Locks:
         held = self.live(lid)
         if held and (mode == 'write' or any(g.mode == 'write' for g in held)):
             self.findings.append('L2: %s-locks %s while a %s guard of the same lock taken in %s is still live (self-deadlock)' % (mode, lid, held[0].mode, held[0].site))
+        elif held:
+            # std::sync::RwLock: "this function might panic [or deadlock] when called if the lock is already held by the current thread":
+            # a writer that queues up between the two reads blocks the second read while the first guard is still held
+            self.findings.append('L2: read-locks %s again while a read guard of the same lock taken in %s is still live: a writer (didChange) queued in between deadlocks with this thread' % (lid, held[0].site))
         g = GuardV(lid, mode, self.it.stack[-1] if self.it.stack else '?')
         self.guards.append(g); self.events.append(('acquire', lid, mode, g.site))
         return g
@@ -412,7 +416,7 @@ class HandlerSpec:
 
     def make_interp(self):
         it = vfsk.W.interp('glas', uc=True)
-        it.allow = [r'^handler::%s$' % self.fn, r'^handler::%s::\{closure#\d+\}$' % self.fn]
+        it.allow = [r'^handler::%s$' % self.fn, r'^handler::%s::\{closure#\d+\}$' % self.fn, r'^server::<impl at [^>]*>::vfs$']
         self.locks = Locks(it)
         install(it, self.locks)
         return it
@@ -440,6 +444,9 @@ class HandlerSpec:
         if cancelled and var != 'Err':
             rec.update({'cls': 'violation', 'ok': False, 'why': ['C16: L5: handler::%s answers %s although the query on its snapshot was cancelled (the answer belongs to no version of the document)' % (self.fn, var)],
                         'cex': {'handler': 'handler::' + self.fn, 'lock_events': []}})
+        lf = [f for f in self.locks.findings if f.startswith('L2')]
+        if lf:
+            rec.update({'cls': 'violation', 'ok': False, 'why': rec.get('why', []) + ['C16: handler::%s: %s' % (self.fn, lf[0])], 'cex': {'handler': 'handler::' + self.fn, 'lock_events': [list(e) for e in self.locks.events][:8]}})
         return rec
 
     def on_panic(self, it, e):
